@@ -11,6 +11,10 @@ open APModel APModel.Codec
 
 /-! ### well-formedness -/
 
+/-- which normal form the writer's presentation of a single tagged text leads to: the library's writer drops
+the tag (`true`), a writer that keeps it in a one-entry language map does not (`false`) -/
+def enc (E : Env) : Bool := !E.loneTagAsMap
+
 def isListItem : Item → Bool
   | .iris _ => true
   | .coll _ _ => true
@@ -90,18 +94,18 @@ def wfItem (E : Env) : Item → Bool
   | .irisNil => true
   | .iri s => !s.isEmpty && E.validIRI s
   | .iris l => l.all (fun s => !s.isEmpty && E.validIRI s) && l.length != 1 && distinct E.eqv (l.map .iri)
-  | .coll _ l => wfMembers E l && distinct E.eqv (normXItems true l)
+  | .coll _ l => wfMembers E l && distinct E.eqv (normXItems (enc E) l)
   | .node k _ fs => wfFields E k.goName fs && E.kindOfType (typOf (writeFields E k.goName fs)) == some k
 /-- members of a list: well-formed, not lists themselves, and with something to say -/
 def wfMembers (E : Env) : Items → Bool
   | .nil => true
-  | .cons i r => wfItem E i && !isListItem i && !isNilItem (normJ i) && wfMembers E r
+  | .cons i r => wfItem E i && !isListItem i && !isNilItem (normX (enc E) i) && wfMembers E r
 def wfFields (E : Env) (sn : String) : Fields → Bool
   | .nil => true
   | .cons n v r => coherentField E sn n && kindMatches (E.fieldKind sn n) v && wfVal E (E.fieldKind sn n) v && wfFields E sn r
 def wfVal (E : Env) (kind : String) : FVal → Bool
   | .item i => wfItem E i
-  | .items l => wfMembers E l && distinct E.eqv (normXItems true l)
+  | .items l => wfMembers E l && distinct E.eqv (normXItems (enc E) l)
   | .nlv n => !n.isEmpty && n.all (fun p => !p.1.isEmpty && !p.2.isEmpty) && tagsDistinct n
   | .time _ _ _ => true
   | .dur d => d != 0
@@ -164,9 +168,9 @@ theorem ofList_toList_length (js : List J) : (JList.ofList js).toList = js := by
 
 
 def ItemOK (E : Env) (x : Item) : Prop :=
-  (writeItem E x = none → normX true x = .nil) ∧
-  (∀ j, writeItem E x = some j → readTop E j = normX true x) ∧
-  (isListItem x = false → ∀ j, writeItem E x = some j → loadItem E j = normX true x)
+  (writeItem E x = none → normX (enc E) x = .nil) ∧
+  (∀ j, writeItem E x = some j → readTop E j = normX (enc E) x) ∧
+  (isListItem x = false → ∀ j, writeItem E x = some j → loadItem E j = normX (enc E) x)
 
 theorem readTop_str (E : Env) (s : Str) : readTop E (.str s) = loadItem E (.str s) := rfl
 theorem readTop_obj (E : Env) (ms : JMembers) : readTop E (.obj ms) = loadItem E (.obj ms) := rfl
@@ -210,17 +214,17 @@ theorem item_iris (E : Env) (l : List Str) (h : wfItem E (.iris l) = true) : Ite
 
 /-- what the induction gives for the members of a list -/
 def MembersOK (E : Env) (l : Items) : Prop :=
-  loadList E (JList.ofList (writeItems E l)) = normXItems true l ∧
-  (normXItems true l).length = Items.length l ∧
-  (∀ i, l = .cons i .nil → ∃ j, writeItems E l = [j] ∧ loadItem E j = normX true i ∧
+  loadList E (JList.ofList (writeItems E l)) = normXItems (enc E) l ∧
+  (normXItems (enc E) l).length = Items.length l ∧
+  (∀ i, l = .cons i .nil → ∃ j, writeItems E l = [j] ∧ loadItem E j = normX (enc E) i ∧
       ((∃ s, j = .str s ∧ s.isEmpty = false ∧ E.validIRI s = true) ∨ (∃ ms, j = .obj ms)))
 
-theorem normXItems_len_pos (l : Items) (i : Item) (r : Items) (h : l = .cons i r) (hn : isNilItem (normX true i) = false) :
-    normXItems true l ≠ [] := by
+theorem normXItems_len_pos (l : Items) (i : Item) (r : Items) (h : l = .cons i r) (hn : isNilItem (normX (enc E) i) = false) :
+    normXItems (enc E) l ≠ [] := by
   subst h; simp [normXItems, hn]
 
 /-- a list in an item position -/
-theorem item_coll (E : Env) (p : Bool) (l : Items) (hd : distinct E.eqv (normXItems true l) = true) (hm : MembersOK E l) :
+theorem item_coll (E : Env) (p : Bool) (l : Items) (hd : distinct E.eqv (normXItems (enc E) l) = true) (hm : MembersOK E l) :
     ItemOK E (.coll p l) := by
   obtain ⟨hload, hlen, hone⟩ := hm
   refine ⟨?_, ?_, by simp [isListItem]⟩
@@ -254,10 +258,10 @@ theorem item_coll (E : Env) (p : Bool) (l : Items) (hd : distinct E.eqv (normXIt
         -- normXItems of the one-element list is [normX i] (the member is not silent: it was written)
         simp only [normX, normXItems]
         simp only [normXItems] at hl
-        by_cases hn : isNilItem (normX true i) = true
+        by_cases hn : isNilItem (normX (enc E) i) = true
         · simp only [hn, if_true] at hl ⊢
           rw [hl0] at hl
-          cases hx : normX true i <;> simp_all [isNilItem, collapse]
+          cases hx : normX (enc E) i <;> simp_all [isNilItem, collapse]
         · simp [hn, collapse]
       | cons i' r' =>
         simp only [Items.length] at hj
@@ -267,7 +271,7 @@ theorem item_coll (E : Env) (p : Bool) (l : Items) (hd : distinct E.eqv (normXIt
         subst hj
         simp only [readTop, hload, dedup_nil E.eqv _ hd, normX]
         simp only [Items.length] at hlen
-        generalize normXItems true (.cons i (.cons i' r')) = L at hlen ⊢
+        generalize normXItems (enc E) (.cons i (.cons i' r')) = L at hlen ⊢
         match L, hlen with
         | [], h => simp at h
         | [x], h => simp at h
@@ -300,7 +304,7 @@ theorem writeItem_nonlist_shape (E : Env) (x : Item) (h : isListItem x = false) 
     · cases hj; exact Or.inr ⟨_, rfl⟩
 
 theorem members_cons (E : Env) (i : Item) (r : Items) (hi : ItemOK E i) (hwfi : wfItem E i = true) (hl : isListItem i = false)
-    (hn : isNilItem (normX true i) = false) (hr : MembersOK E r) : MembersOK E (.cons i r) := by
+    (hn : isNilItem (normX (enc E) i) = false) (hr : MembersOK E r) : MembersOK E (.cons i r) := by
   obtain ⟨h1, _, h3⟩ := hi
   obtain ⟨r1, r2, _⟩ := hr
   cases hw : writeItem E i with
@@ -318,15 +322,15 @@ theorem members_cons (E : Env) (i : Item) (r : Items) (hi : ItemOK E i) (hwfi : 
 
 theorem item_node (E : Env) (k : Kind) (p : Bool) (fs : Fields)
     (hty : (E.kindOfType (typOf (writeFields E k.goName fs)) == some k) = true)
-    (hf : readFields E k.goName (writeFields E k.goName fs) = normXFields true fs) : ItemOK E (.node k p fs) := by
+    (hf : readFields E k.goName (writeFields E k.goName fs) = normXFields (enc E) fs) : ItemOK E (.node k p fs) := by
   have hk : E.kindOfType (typOf (writeFields E k.goName fs)) = some k := by simpa using hty
-  have key : ∀ ms, writeFields E k.goName fs = ms → loadItem E (.obj ms) = normX true (.node k p fs) := by
+  have key : ∀ ms, writeFields E k.goName fs = ms → loadItem E (.obj ms) = normX (enc E) (.node k p fs) := by
     intro ms hms
     subst hms
     simp only [loadItem, normX]
     rw [hk]
     simp only [hf]
-    cases normXFields true fs <;> rfl
+    cases normXFields (enc E) fs <;> rfl
   refine ⟨?_, ?_, ?_⟩
   · intro hnone
     simp only [writeItem] at hnone
@@ -448,10 +452,10 @@ theorem written_str_valid (E : Env) (x : Item) (hwf : wfItem E x = true) (s : St
 
 def ValOK (E : Env) (kind hw hr : String) (v : FVal) : Prop :=
   match writeVal E kind hw v with
-  | none => normXVal true v = none
+  | none => normXVal (enc E) v = none
   | some (sfx, j) =>
-    (sfx = "" ∧ readVal E kind hr j = normXVal true v) ∨
-    (sfx = "Map" ∧ kind = "nlv" ∧ ∃ ms, j = .obj ms ∧ (match langPairs ms with | [] => none | ps => some (FVal.nlv ps)) = normXVal true v)
+    (sfx = "" ∧ readVal E kind hr j = normXVal (enc E) v) ∨
+    (sfx = "Map" ∧ kind = "nlv" ∧ ∃ ms, j = .obj ms ∧ (match langPairs ms with | [] => none | ps => some (FVal.nlv ps)) = normXVal (enc E) v)
 
 theorem val_item (E : Env) (i : Item) (hwf : wfItem E i = true) (hi : ItemOK E i) (hr : String)
     (hhr : hr = "JSONGetItem" ∨ hr = "JSONGetURIItem") : ValOK E "item" "JSONWriteItemProp" hr (.item i) := by
@@ -465,12 +469,12 @@ theorem val_item (E : Env) (i : Item) (hwf : wfItem E i = true) (hi : ItemOK E i
     rw [readVal_item E j hr hhr (fun s hs => written_str_valid E i hwf s (by rw [hw, hs])), hi.2.1 j hw, wrapItem_eq]
     simp [normXVal]
 
-theorem items_arr (E : Env) (l : Items) (hm : MembersOK E l) (hd : distinct E.eqv (normXItems true l) = true) :
-    readVal E "items" "JSONGetItems" (.arr (JList.ofList (writeItems E l))) = normXVal true (.items l) := by
+theorem items_arr (E : Env) (l : Items) (hm : MembersOK E l) (hd : distinct E.eqv (normXItems (enc E) l) = true) :
+    readVal E "items" "JSONGetItems" (.arr (JList.ofList (writeItems E l))) = normXVal (enc E) (.items l) := by
   simp only [readVal, hm.1, dedup_nil E.eqv _ hd, normXVal]
-  cases normXItems true l <;> simp
+  cases normXItems (enc E) l <;> simp
 
-theorem val_items (E : Env) (l : Items) (hm : MembersOK E l) (hd : distinct E.eqv (normXItems true l) = true)
+theorem val_items (E : Env) (l : Items) (hm : MembersOK E l) (hd : distinct E.eqv (normXItems (enc E) l) = true)
     (hw : String) (hhw : hw = "JSONWriteItemCollectionProp" ∨ hw = "JSONWriteItemProp") :
     ValOK E "items" hw "JSONGetItems" (.items l) := by
   unfold ValOK
@@ -496,9 +500,9 @@ theorem val_items (E : Env) (l : Items) (hm : MembersOK E l) (hd : distinct E.eq
         simp only [List.head?, Option.map_some]
         refine Or.inl ⟨by simp, ?_⟩
         -- the member is not silent
-        have hnn : isNilItem (normX true i) = false := by
+        have hnn : isNilItem (normX (enc E) i) = false := by
           simp only [normXItems, Items.length] at hlen
-          by_cases hn : isNilItem (normX true i) = true
+          by_cases hn : isNilItem (normX (enc E) i) = true
           · simp [hn] at hlen
           · simpa using hn
         rcases hshape with ⟨s, rfl, hs, hv⟩ | ⟨ms, rfl⟩
@@ -509,7 +513,7 @@ theorem val_items (E : Env) (l : Items) (hm : MembersOK E l) (hd : distinct E.eq
           have hne3 : ("JSONGetItems" == "JSONGetURIItem") = false := by decide
           simp only [hne2, hne3, Bool.or_self, Bool.false_eq_true, if_false, beq_self_eq_true, if_true, hl]
           simp only [normXVal, normXItems, hnn, Bool.false_eq_true, if_false, Items.ofList]
-          cases hx : normX true i <;> simp_all [isNilItem]
+          cases hx : normX (enc E) i <;> simp_all [isNilItem]
       | cons i' r' =>
         simp only [Items.length]
         have h0 : ¬ (Items.length r' + 1 + 1 = 0) := by omega
@@ -566,7 +570,18 @@ theorem val_nlv (E : Env) (n : List (Str × Str)) (kind : String) (hwf : wfVal E
   | [(t, v)], _, hall, _ =>
     simp only [List.all_cons, List.all_nil, Bool.and_true, Bool.and_eq_true, Bool.not_eq_true'] at hall
     simp only [writeNLV, hall.2, Bool.false_eq_true, if_false]
-    exact Or.inl ⟨by simp, by simp [readVal, normXVal]⟩
+    by_cases hm : (E.loneTagAsMap && t != dash) = true
+    · simp only [hm, if_true]
+      refine Or.inr ⟨by simp, trivial, mapOf [(t, v)], rfl, ?_⟩
+      rw [langPairs_mapOf _ (by simpa using hall)]
+      simp only [Bool.and_eq_true] at hm
+      simp [normXVal, enc, hm.1]
+    · simp only [hm, Bool.false_eq_true, if_false]
+      refine Or.inl ⟨by simp, ?_⟩
+      simp only [Bool.and_eq_true, not_and, bne_iff_ne, ne_eq, Decidable.not_not] at hm
+      by_cases hl : E.loneTagAsMap = true
+      · simp [readVal, normXVal, enc, hl, hm hl]
+      · simp [readVal, normXVal, enc, hl]
   | a :: b :: r, _, hall, hd =>
     have hid := nlvMapMembers_id (a :: b :: r) [] hall hd (by intro p _; rfl)
     simp only [writeNLV, hid]
@@ -584,7 +599,7 @@ theorem items_len0 (l : Items) (h : Items.length l = 0) : l = .nil := by
 
 theorem guard_or_silent (E : Env) (g kind : String) (v : FVal) (hk : kindMatches kind v = true)
     (hwf : wfVal E kind v = true) (hfit : guardFits g kind = true) (hfail : guardPasses g v = false) :
-    normXVal true v = none := by
+    normXVal (enc E) v = none := by
   unfold guardFits at hfit
   unfold guardPasses at hfail
   generalize Guard.parse g = G at hfit hfail
@@ -643,7 +658,7 @@ theorem guard_or_silent (E : Env) (g kind : String) (v : FVal) (hk : kindMatches
 
 theorem val_record (E : Env) (kind hr : String) (fs : Fields)
     (hk : (kind = "source" ∧ hr = "GetAPSource") ∨ (kind = "pubkey" ∧ hr = "JSONGetPublicKey") ∨ (kind = "endpoints" ∧ hr = "JSONGetActorEndpoints"))
-    (hf : readFields E (recName kind) (writeFields E (recName kind) fs) = normXFields true fs) :
+    (hf : readFields E (recName kind) (writeFields E (recName kind) fs) = normXFields (enc E) fs) :
     ValOK E kind "marshal" hr (.record fs) := by
   unfold ValOK
   simp only [writeVal, beq_self_eq_true, if_true]
@@ -657,7 +672,7 @@ theorem val_record (E : Env) (kind hr : String) (fs : Fields)
     refine Or.inl ⟨by simp, ?_⟩
     rw [← hms]
     rcases hk with ⟨rfl, rfl⟩ | ⟨rfl, rfl⟩ | ⟨rfl, rfl⟩ <;>
-      (simp only [readVal, normXVal, hf]; simp; cases normXFields true fs <;> rfl)
+      (simp only [readVal, normXVal, hf]; simp; cases normXFields (enc E) fs <;> rfl)
 
 /-! ### one field -/
 
@@ -665,8 +680,8 @@ theorem fields_cons (E : Env) (sn n : String) (v : FVal) (r : Fields)
     (hco : coherentField E sn n = true) (hk : kindMatches (E.fieldKind sn n) v = true)
     (hwf : wfVal E (E.fieldKind sn n) v = true)
     (hval : ∀ hw hr, deepPair (E.fieldKind sn n) hw hr = true → ValOK E (E.fieldKind sn n) hw hr v)
-    (hrest : readFields E sn (writeFields E sn r) = normXFields true r) :
-    readFields E sn (writeFields E sn (.cons n v r)) = normXFields true (.cons n v r) := by
+    (hrest : readFields E sn (writeFields E sn r) = normXFields (enc E) r) :
+    readFields E sn (writeFields E sn (.cons n v r)) = normXFields (enc E) (.cons n v r) := by
   unfold coherentField at hco
   cases hw : E.wrow sn n with
   | none => simp [hw] at hco
@@ -694,7 +709,7 @@ theorem fields_cons (E : Env) (sn n : String) (v : FVal) (r : Fields)
           simp only at hv ⊢
           rcases hv with ⟨rfl, hread⟩ | ⟨rfl, hnlv, ms, rfl, hlang⟩
           · simp only [String.append_empty, readFields, hr, hrf, hread]
-            cases normXVal true v with
+            cases normXVal (enc E) v with
             | none => simpa using hrest
             | some v' => simp [hrest]
           · rw [hnlv] at hmap
@@ -779,7 +794,7 @@ theorem deep_members (E : Env) : ∀ l : Items, wfMembers E l = true → Members
     obtain ⟨⟨⟨hwi, hli⟩, hni⟩, hr⟩ := h
     exact members_cons E i r (deep_item E i hwi) hwi hli hni (deep_members E r hr)
 theorem deep_fields (E : Env) (sn : String) : ∀ fs : Fields, wfFields E sn fs = true →
-    readFields E sn (writeFields E sn fs) = normXFields true fs
+    readFields E sn (writeFields E sn fs) = normXFields (enc E) fs
   | .nil, _ => by simp [writeFields, readFields, normXFields]
   | .cons n v r, h => by
     simp only [wfFields, Bool.and_eq_true] at h
@@ -866,11 +881,53 @@ end
 
 /-- The whole-tree theorem: for every well-formed value tree, reading what the writer writes gives the
 documented normal form. -/
-theorem deep_roundtrip (E : Env) (x : Item) (h : wfItem E x = true) : roundTrip E x = normJ x := by
+theorem deep_roundtrip (E : Env) (x : Item) (h : wfItem E x = true) : roundTrip E x = normX (enc E) x := by
   obtain ⟨h1, h2, _⟩ := deep_item E x h
   unfold roundTrip
   cases hw : writeItem E x with
   | none => simp [h1 hw]
   | some j => simp [h2 j hw]
+
+/-! ### the reader looks only at the read side of the environment -/
+
+structure SameReader (E E' : Env) : Prop where
+  rrow : E.rrow = E'.rrow
+  rrowMap : E.rrowMap = E'.rrowMap
+  fieldKind : E.fieldKind = E'.fieldKind
+  kindOfType : E.kindOfType = E'.kindOfType
+  validIRI : E.validIRI = E'.validIRI
+  eqv : E.eqv = E'.eqv
+
+mutual
+theorem loadItem_ext (E E' : Env) (h : SameReader E E') : ∀ j, loadItem E j = loadItem E' j
+  | .null => by simp [loadItem]
+  | .leaf _ => by simp [loadItem]
+  | .arr _ => by simp [loadItem]
+  | .str s => by simp [loadItem, h.validIRI]
+  | .obj ms => by
+    simp only [loadItem, h.kindOfType]
+    cases E'.kindOfType (typOf ms) with
+    | none => rfl
+    | some k => simp only [readFields_ext E E' h k.goName ms]
+theorem loadList_ext (E E' : Env) (h : SameReader E E') : ∀ l, loadList E l = loadList E' l
+  | .nil => by simp [loadList]
+  | .cons j r => by simp only [loadList, loadItem_ext E E' h j, loadList_ext E E' h r]
+theorem readFields_ext (E E' : Env) (h : SameReader E E') (sn : String) : ∀ ms, readFields E sn ms = readFields E' sn ms
+  | .nil => by simp [readFields]
+  | .cons name j r => by
+    simp only [readFields, h.rrow, h.rrowMap, h.fieldKind, readFields_ext E E' h sn r]
+    cases E'.rrow sn name with
+    | none => rfl
+    | some row => simp only [readVal_ext E E' h _ _ j]
+theorem readVal_ext (E E' : Env) (h : SameReader E E') (kind helper : String) : ∀ j, readVal E kind helper j = readVal E' kind helper j
+  | .null => by simp [readVal]
+  | .str s => by simp only [readVal, h.validIRI]
+  | .leaf v => by cases v <;> simp [readVal]
+  | .arr l => by simp only [readVal, h.eqv, loadList_ext E E' h l]
+  | .obj ms => by simp only [readVal, loadItem, h.kindOfType, readFields_ext E E' h _ ms]
+end
+
+theorem readTop_ext (E E' : Env) (h : SameReader E E') (j : J) : readTop E j = readTop E' j := by
+  cases j <;> simp only [readTop, loadItem_ext E E' h, loadList_ext E E' h, h.eqv]
 
 end APModel.Deep
